@@ -623,6 +623,7 @@ Definition close_position (v : ver) (c : cfg) (st : state) (sender : Z) (d now :
 Inductive op :=
 | NewEpoch
 | Donate (sender asset amount : Z)                   (* plain transfer to the contract, not a contract call *)
+| Gift (sender to asset amount : Z)                  (* plain transfer between two other accounts (e.g. to the frontend helper) *)
 | Snapshot
 | OpenFlow (sender : Z) (fs al : list (Z * Z)) (start_o end_o : option Z) (asset amount : Z) (label : option Z)
 | ExpandFlow (sender : Z) (fs al : list (Z * Z)) (x : ident) (end_o : option Z) (asset amount : Z)
@@ -631,7 +632,10 @@ Inductive op :=
 | OpenPosition (sender : Z) (fs al : list (Z * Z)) (amount d : Z) (receiver : option Z)
 | ExpandPosition (sender : Z) (fs al : list (Z * Z)) (amount d : Z) (receiver : option Z)
 | ClosePosition (sender : Z) (d now : Z)
-| Withdraw (sender : Z).
+| Withdraw (sender : Z)
+(* frontend_helper Deposit {pair, assets (a0: d0, a1: d1), unbonding_duration}; the pair contract is an oracle:
+   whether it accepts the liquidity (pair_ok) and how many LP tokens it mints to the helper (minted) are inputs *)
+| HelperDeposit (user : Z) (fs al : list (Z * Z)) (a0 d0 a1 d1 dur : Z) (pair_ok : bool) (minted : Z).
 
 Definition with_bal (st : state) (b : Z -> Z -> Z) : state :=
   mkState (s_epoch st) b (s_flows st) (s_counter st) (s_open st) (s_closed st) (s_gw st) (s_aw st) (s_snap st) (s_awh st) (s_last st).
@@ -644,11 +648,54 @@ Definition call (st : state) (sender : Z) (fs al : list (Z * Z)) (h : outcome (s
   do b2 <- run_msgs ms b1 al;
   Ok (with_bal st' b2).
 
+(* ---- frontend_helper (contract.rs, reply/deposit_pair.rs), cw20 LP token (default build) ----------------- *)
+Definition HELPER : Z := 101.
+Definition PAIR : Z := 102.
+
+Fixpoint move_coins (fs : list (Z * Z)) (b : Z -> Z -> Z) (from to : Z) : outcome (Z -> Z -> Z) :=
+  match fs with
+  | [] => Ok b
+  | (d, a) :: r => do b1 <- transfer b from to d a; move_coins r b1 from to
+  end.
+
+(* a cw20 asset of the deposit: the allowance given to the helper must equal the amount; it is pulled into the helper *)
+Definition helper_pull (b : Z -> Z -> Z) (al : list (Z * Z)) (user a d : Z) : outcome (Z -> Z -> Z) :=
+  if is_native a then Ok b
+  else if aget0 a al =? d then transfer b user HELPER a d else Err E_OTHER.
+Definition helper_forward (b : Z -> Z -> Z) (a d : Z) : outcome (Z -> Z -> Z) :=
+  if is_native a then Ok b else transfer b HELPER PAIR a d.
+
+(* the Positions query of the incentive contract fails if the weight of one of the open positions cannot be computed *)
+Definition positions_query_ok (st : state) (u : Z) : bool :=
+  forallb (fun p => is_ok (calculate_weight (snd (snd p)) (fst (snd p)))) (pos_of u (s_open st)).
+
+Definition helper_deposit (v : ver) (c : cfg) (st : state) (user : Z) (fs al : list (Z * Z)) (a0 d0 a1 d1 dur : Z)
+    (pair_ok : bool) (minted : Z) (open_h expand_h : state -> Z -> outcome (state * list msg)) : outcome (state * list msg * (Z -> Z -> Z) * Z) :=
+  do _ <- ensure (negb (is_native (c_lp c))) E_OTHER;
+  do b0 <- move_coins fs (s_bal st) user HELPER;
+  do b1 <- helper_pull b0 al user a0 d0;
+  do b2 <- helper_pull b1 al user a1 d1;
+  (* ProvideLiquidity on the pair with all the attached funds; the pair pulls the cw20 amounts *)
+  do _ <- ensure pair_ok E_OTHER;
+  do b3 <- move_coins fs b2 HELPER PAIR;
+  do b4 <- helper_forward b3 a0 d0;
+  do b5 <- helper_forward b4 a1 d1;
+  (* the pair mints the LP tokens to the helper *)
+  let lpb := b5 HELPER (c_lp c) + minted in
+  do _ <- ensure (lpb <? P128) E_OTHER;
+  let b6 := upd_bal b5 HELPER (c_lp c) lpb in
+  (* reply: the whole LP balance of the helper is staked for the user *)
+  do _ <- ensure (positions_query_ok st user) E_OTHER;
+  let st1 := mkState (s_epoch st) b6 (s_flows st) (s_counter st) (s_open st) (s_closed st) (s_gw st) (s_aw st) (s_snap st) (s_awh st) (s_last st) in
+  do r <- (if has_pos user dur (s_open st) then expand_h st1 lpb else open_h st1 lpb);
+  Ok (r, b6, lpb).
+
 Definition step (v : ver) (c : cfg) (st : state) (o : op) : outcome state :=
   match o with
   | NewEpoch => do e <- padd P64 (s_epoch st) 1;
       Ok (mkState e (s_bal st) (s_flows st) (s_counter st) (s_open st) (s_closed st) (s_gw st) (s_aw st) (s_snap st) (s_awh st) (s_last st))
   | Donate sender asset amount => do b <- transfer (s_bal st) sender SELF asset amount; Ok (with_bal st b)
+  | Gift sender to asset amount => do b <- transfer (s_bal st) sender to asset amount; Ok (with_bal st b)
   | Snapshot => call st 0 [] [] (take_snapshot st)
   | OpenFlow sender fs al so eo asset amount label => call st sender fs al (open_flow v c st sender fs al so eo asset amount label)
   | ExpandFlow sender fs al x eo asset amount => call st sender fs al (expand_flow v c st sender fs al x eo asset amount)
@@ -658,6 +705,13 @@ Definition step (v : ver) (c : cfg) (st : state) (o : op) : outcome state :=
   | ExpandPosition sender fs al amount d recv => call st sender fs al (expand_position c st sender fs al amount d recv)
   | ClosePosition sender d now => call st sender [] [] (close_position v c st sender d now)
   | Withdraw sender => call st sender [] [] (withdraw c st sender)
+  | HelperDeposit user fs al a0 d0 a1 d1 dur pair_ok minted =>
+      do x <- helper_deposit v c st user fs al a0 d0 a1 d1 dur pair_ok minted
+                (fun st1 amt => open_position c st1 HELPER [] [(c_lp c, amt)] amt dur (Some user))
+                (fun st1 amt => expand_position c st1 HELPER [] [(c_lp c, amt)] amt dur (Some user));
+      let '(r, b6, lpb) := x in
+      let st1 := mkState (s_epoch st) b6 (s_flows st) (s_counter st) (s_open st) (s_closed st) (s_gw st) (s_aw st) (s_snap st) (s_awh st) (s_last st) in
+      call st1 HELPER [] [(c_lp c, lpb)] (Ok r)
   end.
 
 (* a failed operation leaves the state untouched (transaction atomicity) *)
